@@ -91,6 +91,7 @@ def run(ctx):
     ctx.floor("elimination routines scanned for stale element reads", k, 6)
     # (1d) sibling cross-check: row clearing and column clearing are transposes of each other
     siblings_agree(ctx, "T4-siblings-agree", M + "clear_later_rows_in_place", M + "clear_later_cols_in_place", "row step ~ column step", compare_fields=True)
+    divisor_chain(ctx, g, ai)
     # (2) ascending
     sorts = [(bi, t) for bi, t in ai.calls("slice::<impl [T]>::sort")]
     rets_assign = [(bi, si, norm(ai.rv_origin(s["rv"]), g)) for bi, si, s in ai.assigns() if s["place"]["l"] == 0 and not s["place"]["p"]]
@@ -138,6 +139,77 @@ def run(ctx):
     ctx.ob("T2-drop-ones", ai.name, "filter(x != 1)", "ok" if okf else "violation", "trivial factors are dropped" if okf else "factors equal to 1 are no longer filtered out")
     ctx.ob("T2-pad-zeros", ai.name, "chain(repeat(0).take(nr_gens - n))", "ok" if okt and chain_ok else "violation",
            "one 0 per generator beyond the rank bound n = min(rows, nr_gens)" if okt and chain_ok else "the list is no longer padded with nr_gens - min(rows, nr_gens) zeros")
+
+
+def divisor_chain(ctx, g, ai):
+    """the diagonal entries are turned into a divisor chain: for every pair i < j below the rank bound, unless factors[i] already divides
+    factors[j] (or is 0), the pair is replaced by (gcd, lcm).  The guard of that fix-up is decided by evaluating it on a grid of small
+    integer pairs: it must be true for EVERY pair (a, b) with a != 0 and b % a != 0."""
+    import math
+    ctx.clauses.append("invariant factors form a divisor chain: every non-dividing pair i < j is replaced by (gcd, lcm) (T3/T4)")
+    nr = ("param", 1, ai.debug.get(1, ""))
+    sites = list(ai.calls(exact=M + "gcdx"))
+    ctx.floor("gcdx calls in abelian_invariants", len(sites), 1)
+    for bi, t in sites:
+        A, B = [norm(ai.origin(x), g) for x in t["args"]]
+        okix = all(x[0] == "call" and x[1].endswith("Index::index") and x[2][0][0] == "local" for x in (A, B)) and A[2][0] == B[2][0]
+        if not okix:
+            ctx.ob("T4-divisor-chain", ai.name, "gcdx(factors[i], factors[j])", "violation", "the gcd is not taken of two entries of one vector: %s, %s" % (show(A, 1)[:40], show(B, 1)[:40]), ai.span_of(bi))
+            continue
+        fac, i_, j_ = A[2][0], A[2][1], B[2][1]
+        ri, rj = loop_range_of_payload(ai, i_, g), loop_range_of_payload(ai, j_, g)
+        def isn(x):
+            return x is not None and x[0] == "call" and x[1].endswith("Ord::min") and nr in x[2] and any(is_call(y, "::len") for y in x[2])
+        okr = ri is not None and rj is not None and ri[0] == ("int", 0) and not ri[2] and not rj[2] and isn(ri[1]) and rj[1] == ri[1] and \
+            unov1(rj[0]) == ("binop", "Add", i_, ("int", 1))
+        ctx.ob("T4-divisor-chain", ai.name, "pairs", "ok" if okr else "violation",
+               "all pairs i in 0..n, j in i+1..n with n = min(rows, nr_gens)" if okr else
+               "the fix-up does not run over all pairs i in 0..n, j in i+1..n: i in %s, j in %s" % (ri and (show(ri[0], 1), show(ri[1], 1)[:40]), rj and (show(rj[0], 1)[:40], show(rj[1], 1)[:40])), ai.span_of(bi))
+        fa = [atom_norm(x, g) for x in ai.facts_at(bi)]
+        rel = [x for x in fa if any(isinstance(y, tuple) and contains(y, lambda s_: s_ in (A, B)) for y in x[1:])]
+        bad = None
+        for a in range(-12, 13):
+            for b in range(-12, 13):
+                if a == 0 or b % a == 0 or bad:
+                    continue
+                for x in rel:
+                    v = eval_atom_env(x, {A: a, B: b})
+                    if v is None and not contains_ovf_flag(x):
+                        bad = "the guard %s of the gcd/lcm fix-up is not understood" % show_atom(x)[:70]
+                    elif v is False:
+                        bad = "for factors[i] = %d, factors[j] = %d (%d does not divide %d) the guard %s skips the gcd/lcm fix-up: the result is not a divisor chain" % (a, b, a, b, show_atom(x)[:60])
+        ctx.ob("T3-divisor-chain-guard", ai.name, "gcdx<-(a != 0 && b % a != 0)", "ok" if not bad else "violation",
+               "the fix-up runs for every pair with a != 0 that is not already a divisor pair (guard evaluated on 600 integer pairs)" if not bad else bad, ai.span_of(bi))
+        # the replacement values
+        G = ("field", ("call", M + "gcdx", (A, B)), "0")
+        st = {}
+        for b2, blk in ai.live_blocks():
+            for si, s_ in enumerate(blk["stmts"]):
+                if s_["k"] == "assign" and any(e["k"] == "deref" for e in s_["place"]["p"]):
+                    base = norm(ai.local_origin(s_["place"]["l"]), g)
+                    if base[0] == "call" and base[1].endswith("IndexMut::index_mut") and base[2][0] == fac and ai.dominates(bi, b2):
+                        st[base[2][1]] = norm(ai.rv_origin(s_["rv"]), g)
+        okg = st.get(i_) == G
+        okl = j_ in st
+        if okl:
+            for a, b in ((4, 6), (6, 4), (-4, 6), (6, 9), (10, 15), (3, 5), (12, 8)):
+                for sg in (1, -1):
+                    gg = sg * math.gcd(a, b)
+                    v = eval_term_env(st[j_], {A: a, B: b, G: gg})
+                    if v is None or abs(v) != abs(a * b) // abs(gg):
+                        okl = False
+        ctx.ob("T4-divisor-chain", ai.name, "factors[i] = gcd", "ok" if okg else "violation",
+               "factors[i] becomes the gcd" if okg else "factors[i] is not set to gcdx(a, b).0: %s" % (show(st[i_], 1)[:60] if i_ in st else "no store"), ai.span_of(bi))
+        ctx.ob("T4-divisor-chain", ai.name, "factors[j] = lcm", "ok" if okl else "violation",
+               "factors[j] becomes a / g * b (the lcm; evaluated on 14 sample pairs)" if okl else "factors[j] is not set to the lcm a / g * b: %s" % (show(st[j_], 1)[:80] if j_ in st else "no store"), ai.span_of(bi))
+
+
+def unov1(t):
+    return ("binop", t[1][1].replace("WithOverflow", ""), t[1][2], t[1][3]) if t[0] == "field" and str(t[2]) == "0" and t[1][0] == "binop" else t
+
+
+def contains_ovf_flag(atom):
+    return any(isinstance(y, tuple) and contains(y, lambda s_: s_[0] == "field" and str(s_[2]) == "1" and s_[1][0] == "binop" and s_[1][1].endswith("WithOverflow")) for y in atom[1:])
 
 
 def _leaves(t, acc=None):
